@@ -219,22 +219,25 @@ def match_decode(spec_seq, s, nz, inv=None):
             if off is None or var is None or lp.start is None:
                 diffs.append(('loop %s shape' % attr, 'decode() loop for %s is not an offset loop' % over))
                 continue
+            # a range loop may count items, bytes or anything affine in between: the offset of the first read inside
+            # the loop, off0 = co*$var + base, fixes the map from the loop variable to byte offsets
+            co, base0 = 1, Poly.const(0)
+            if lp.kind == 'range':
+                inloop = [x for x in s.reads if x.loop == lp.lid]
+                if inloop:
+                    co = inloop[0].off.t.get(('$' + lp.var,), 0)
+                    base0 = inloop[0].off - var * Poly.const(co)
+                    if co <= 0 or ('$' + lp.var) in base0.atoms():
+                        diffs.append(('loop %s shape' % attr, 'decode() loop for %s does not read at an offset affine in its loop variable' % over))
+                        continue
+            cur = var * Poly.const(co) + base0        # byte offset of the current item
             # element reads
             eo = Poly.const(0)
             elem_reads = {}
             raw_fields = []
             for b in body:
                 if b[0] == 'F':
-                    base = var if lp.kind != 'range' or True else var
-                    r = find_read(var * Poly.const(1) + eo, b[1], lp.lid)
-                    if r is None and lp.kind == 'range' and lp.step == 1 and fixed:
-                        # index loop: offset = start' + i*size
-                        r = None
-                        for x in s.reads:
-                            if x.loop == lp.lid and x.fmt == b[1]:
-                                co = x.off.t.get(('$' + lp.var,), 0)
-                                if co == _isz(b[1]) and len(body) == 1:
-                                    r = x
+                    r = find_read(cur + eo, b[1], lp.lid)
                     if r is None:
                         diffs.append(('loop %s item@%s' % (attr, eo), 'decode() loop for %s reads no `%s` at element offset %s' % (over, b[1], eo)))
                     else:
@@ -250,22 +253,14 @@ def match_decode(spec_seq, s, nz, inv=None):
             # loop geometry
             if lp.kind == 'range' and fixed:
                 es = esize.const_value()
-                idx_loop = (lp.step == 1 and es != 1)
-                if not idx_loop:
-                    if lp.start != off:
-                        diffs.append(('loop %s start' % attr, 'decode() loop for %s starts at offset %s, the items start at %s' % (over, lp.start, off)))
-                    if lp.step != es:
-                        diffs.append(('loop %s stride' % attr, 'decode() loop for %s advances by %s, an item is %s bytes' % (over, lp.step, es)))
-                    span = lp.stop - lp.start
-                else:
-                    # index loop: offset expression start + i*es
-                    x = [r for r in s.reads if r.loop == lp.lid]
-                    base = x[0].off - Poly.atom('$' + lp.var) * Poly.const(es) if x else None
-                    if base != off or lp.start != Poly.const(0):
-                        diffs.append(('loop %s start' % attr, 'decode() loop for %s reads from offset %s, the items start at %s' % (over, base, off)))
-                    span = lp.stop * Poly.const(es)
+                eff_start = lp.start * Poly.const(co) + base0
+                eff_step = (lp.step or 0) * co
+                if eff_start != off:
+                    diffs.append(('loop %s start' % attr, 'decode() loop for %s starts at offset %s, the items start at %s' % (over, eff_start, off)))
+                if eff_step != es:
+                    diffs.append(('loop %s stride' % attr, 'decode() loop for %s advances by %s, an item is %s bytes' % (over, eff_step, es)))
                 # number of iterations must equal len(list) under the meaning of some count / byte-count field read before
-                stride = es if not idx_loop else 1
+                stride = lp.step
                 raw_span = (lp.stop - lp.start)
                 cands = []
                 okc = False
@@ -297,8 +292,10 @@ def match_decode(spec_seq, s, nz, inv=None):
             elif lp.kind == 'range' and not fixed:
                 # fixed-size records read by a range loop (FC20 request): same as fixed
                 es = esize.const_value()
-                if lp.start != off or lp.step != es:
-                    diffs.append(('loop %s geometry' % attr, 'decode() loop for %s: start %s step %s, expected start %s step %s' % (over, lp.start, lp.step, off, es)))
+                eff_start = lp.start * Poly.const(co) + base0
+                eff_step = (lp.step or 0) * co
+                if eff_start != off or eff_step != es:
+                    diffs.append(('loop %s geometry' % attr, 'decode() loop for %s: start %s step %s, expected start %s step %s' % (over, eff_start, eff_step, off, es)))
             # appended element
             apps = [a for a in s.appends if a[0] == attr and a[2] == lp.lid]
             if not apps:
@@ -314,7 +311,7 @@ def match_decode(spec_seq, s, nz, inv=None):
                     m3 = re.match(r'^\$e\.(\w+)$', b[1])
                     ln = _spec_len(b[2], elem_reads, derived, nz) if len(b) > 2 else None
                     if m3 and ln is not None:
-                        lo = var + beo
+                        lo = cur + beo
                         want = '%s=data[%s:%s]' % (m3.group(1), lo, lo + ln)
                         if not any(want in a[1] for a in apps):
                             diffs.append(('loop %s element.%s' % (attr, m3.group(1)),
